@@ -98,6 +98,11 @@ CHECKS['C02'] = ('model_checking', 'explicit-state BFS over the two real wait-qu
     'the FIFO order of the loop is monitored on every execution of every check.',
     'Address-dependent layout itself is not enumerable; its effect (iteration order) is. Set literals would escape the injection and are listed by an AST scan in the evidence (none today).',
     'DESIGN.md section 3 C02')
+CHECKS['C17'] = ('exploration', 'complete enumeration of (multiset of child failure types, handler specialisation, matching mechanism) over a class hierarchy vs. a reference predicate',
+    'Over a hierarchy with subclass relations, equally named distinct classes and nested Concurrent types, every multiset of <= 3 children x every handler of <= 3 types (with/without ...) and bare Concurrent x {isinstance, issubclass, real except clause} (230k combinations) is compared with a reference predicate written from the statement; '
+    'class identity under permutation/duplication, Concurrent[A,B] is Concurrent[B,A], and flattened() leaf order are checked; everything is repeated with the specialisation frozenset iterating forwards and backwards.',
+    'The reference predicate is the specification. One open known finding: the except clause ignores __subclasscheck__ (CPython), in the direction rule-says-match/not-caught only.',
+    'DESIGN.md section 3 C17')
 PENDING = {}
 
 def main():
